@@ -28,7 +28,14 @@ bool debug_mode_on = false;
 // by event_base_free) are released without removing theirs. The property promises an empty heap
 // after event_base_free AND libevent_global_shutdown, so these entries are checked at process
 // exit (mon_process_exit_live), not per run.
-static bool tolerated(const Blk &b) { return debug_mode_on && b.sz == 24; }
+// The map's bucket array (ht-internal.h: 53, 97, 193, ... pointers) grows with the number of entries and is
+// process-lifetime state as well; it is recognised by its size, in debug-mode worker classes only.
+static bool ht_table_size(size_t sz) {
+	static const size_t primes[] = {53, 97, 193, 389, 769, 1543, 3079, 6151, 12289, 24593, 49157, 98317, 196613};
+	for (size_t p : primes) if (sz == p * sizeof(void *)) return true;
+	return false;
+}
+static bool tolerated(const Blk &b) { return debug_mode_on && (b.sz == 24 || ht_table_size(b.sz)); }
 int64_t live_blocks_run() {
 	int64_t n = 0;
 	for (auto &kv : ledger) if (kv.second.seq > run_seq0 && !tolerated(kv.second)) n++;
